@@ -52,6 +52,8 @@ def run_cli(spec, tier, seed):
                 picks = rng.sample(gates, min(3, len(gates))) + [q for q in ('1040.digital_assets', '1040.virtual_currency') if q in ans]
                 for g in picks:       # the last ones drive a line nothing else reads (an unimplemented leaf)
                     variants.append(('flip', dict(ans, **{g: 'yes'})))
+                for g in picks[-2:]:  # several reasons at once: something unimplemented AND inputs missing
+                    variants.append(('missing+flip', {q: v for q, v in dict(ans, **{g: 'yes'}).items() if q not in drop}))
             for name, amap in variants:
                 path = os.path.join(tmp, 'in.ini')
                 write_ini(path, amap)
